@@ -1,0 +1,35 @@
+//go:build verif
+
+package reader
+
+// VerifState exposes the reader fields to the verification driver (/verif).
+func (lr *LexerReader) VerifState() (pos int, total int, ungetFlg bool, char rune, history []rune) {
+	return lr.pos, len(lr.runes), lr.ungetFlg, lr.char, append([]rune{}, lr.history...)
+}
+
+// VerifPending is the abstraction used by the Lean model: the runes the reader will still
+// deliver, NUL runes (the in-band end marker) removed.
+func (lr *LexerReader) VerifPending() []rune {
+	var out []rune
+	if lr.ungetFlg && lr.char != 0 {
+		out = append(out, lr.char)
+	}
+	for _, r := range lr.history {
+		if r != 0 {
+			out = append(out, r)
+		}
+	}
+	if lr.pos < len(lr.runes) {
+		for _, r := range lr.runes[lr.pos:] {
+			if r != 0 {
+				out = append(out, r)
+			}
+		}
+	}
+	return out
+}
+
+// VerifNew builds a reader directly from runes.
+func VerifNew(runes []rune) LexerReader {
+	return LexerReader{runes: runes}
+}
